@@ -5,6 +5,7 @@ import (
 	"go/ast"
 	"go/constant"
 	"go/token"
+	"go/types"
 	"sort"
 	"strings"
 )
@@ -190,6 +191,10 @@ func runC04R3(c *Ctx, r *Rep) {
 			return true
 		})
 		sort.Strings(msgs)
+		// a raise site must also be reachable: its guard may not test a variable for non-nil that nothing before it sets
+		for _, dg := range deadNilGuards(p.TypesInfo, fd) {
+			r.bad("raises|"+id+"|dead guard "+dg.cond, dg.pos, "the TypeError raised under `%s` in %s cannot happen: %s is declared but nothing assigns it before this test (the lookup that would make it non-nil was moved after it), so the misuse this site reports is now accepted silently", dg.cond, id, dg.name)
+		}
 		for _, ph := range rc.phrases {
 			found := false
 			for _, m := range msgs {
@@ -287,4 +292,80 @@ func init() {
 	register(&Rule{ID: "C04.R4", Prop: "C04", Floor: 1,
 		Doc: "EvalCode matches a keyword argument only against the first total_args = Argcount + Kwonlyargcount variable names",
 		Run: runC04R4})
+}
+
+type deadGuard struct {
+	cond string
+	name string
+	pos  token.Pos
+}
+
+// deadNilGuards finds `if v != nil { …raise… }` where v is a local declared with `var` (zero value) in the same block
+// and no assignment to v lies between the declaration and the test.
+func deadNilGuards(info *types.Info, fd *ast.FuncDecl) []deadGuard {
+	var out []deadGuard
+	ast.Inspect(fd.Body, func(n ast.Node) bool {
+		is, ok := n.(*ast.IfStmt)
+		if !ok {
+			return true
+		}
+		be, ok := unparen(is.Cond).(*ast.BinaryExpr)
+		if !ok || be.Op != token.NEQ || exprStr(be.Y) != "nil" {
+			return true
+		}
+		id, ok := be.X.(*ast.Ident)
+		if !ok {
+			return true
+		}
+		raises := false
+		ast.Inspect(is.Body, func(m ast.Node) bool {
+			if call, ok := m.(*ast.CallExpr); ok {
+				if fn := Callee(info, call); fn != nil && fn.Name() == "ExceptionNewf" {
+					raises = true
+				}
+			}
+			return true
+		})
+		if !raises {
+			return true
+		}
+		obj := info.Uses[id]
+		v, ok := obj.(*types.Var)
+		if !ok || v.Pos() < fd.Body.Pos() {
+			return true // parameter or outer variable
+		}
+		// declared by `var` without initialiser?
+		zeroDecl := false
+		assigned := false
+		ast.Inspect(fd.Body, func(m ast.Node) bool {
+			switch x := m.(type) {
+			case *ast.ValueSpec:
+				for i, nm := range x.Names {
+					if info.Defs[nm] == obj && i >= len(x.Values) {
+						zeroDecl = true
+					}
+				}
+			case *ast.AssignStmt:
+				if x.Pos() > v.Pos() && x.End() <= is.Pos() {
+					for _, l := range x.Lhs {
+						if lid, ok := l.(*ast.Ident); ok && (info.Uses[lid] == obj || info.Defs[lid] == obj) {
+							assigned = true
+						}
+					}
+				}
+			case *ast.UnaryExpr:
+				if x.Op == token.AND && x.Pos() > v.Pos() && x.End() <= is.Pos() {
+					if lid, ok := x.X.(*ast.Ident); ok && info.Uses[lid] == obj {
+						assigned = true // address taken: may be set through the pointer
+					}
+				}
+			}
+			return true
+		})
+		if zeroDecl && !assigned {
+			out = append(out, deadGuard{exprStr(is.Cond), id.Name, is.Pos()})
+		}
+		return true
+	})
+	return out
 }
